@@ -1,9 +1,11 @@
 package main
 
 import (
+	"bytes"
 	"fmt"
 	"math/rand"
 	"os"
+	"os/exec"
 	"path/filepath"
 	"sort"
 	"strconv"
@@ -165,6 +167,7 @@ type c19Env struct {
 	r    *verdict.Run
 	dir  string
 	base string
+	wrap []string // command prefix for the next children (fault injector)
 }
 
 func newC19Env(r *verdict.Run) *c19Env {
@@ -180,7 +183,13 @@ func (p *c19Env) cleanup() { os.RemoveAll(p.dir) }
 // start launches a new child hosting an emulator on the persist path.
 func (p *c19Env) start() (*host.Child, *emu, *wire.Conn, error) {
 	for try := 0; try < 3; try++ {
-		c, err := startChild(false)
+		var c *host.Child
+		var err error
+		if len(p.wrap) > 0 {
+			c, err = host.StartChild(host.Options{Wrap: p.wrap})
+		} else {
+			c, err = startChild(false)
+		}
 		if err != nil {
 			return nil, nil, nil, err
 		}
@@ -534,7 +543,9 @@ func c19Crash(r *verdict.Run, shard int, final bool) {
 func checkC19(r *verdict.Run) {
 	r.Rule = "each case runs the emulator in a child process on a persist path in a scratch directory and restarts it in a new child: (1) round trips over random histories (all types, binary keys/values, deadlines, several databases, in-place changes, deletions, flushes): full dump of all 16 databases (types, values, order, absolute deadlines) before Close() = after restart; " +
 		"(2) dirty gating: after a completed periodic save (saveall hooks) exactly one mutating command (each of " + strconv.Itoa(len(c19Mutators)) + " writers, plus writes in another database) then Close() and restart: the change must be there; " +
-		"(3) crash atomicity: the child is SIGKILLed by the save hooks at every stage of a snapshot write (file created, header, each key, before close) of the periodic and the final save for 1-8 keys in 1-2 databases: the restarted emulator must load, and every database must equal its previous or its new snapshot. distinct = round-trip shapes + mutators + crash stages"
+		"(3) crash atomicity: the child is SIGKILLed by the save hooks at every stage of a snapshot write (file created, header, each key, before close) of the periodic and the final save for 1-8 keys in 1-2 databases: the restarted emulator must load, and every database must equal its previous or its new snapshot; " +
+		"(4) write errors: the emulator runs under strace, which fails write(2) on the snapshot's temporary file with ENOSPC (every write, from the 2nd/4th/7th on, or once, counted per thread): the process must stay alive and keep serving the acknowledged state, an attempt that did not reach save:done must leave the previous snapshot byte-identical, every later pass must retry while the change is unsaved, and the restart (without faults) loads the new state iff an attempt completed, else exactly the previous one. " +
+		"distinct = round-trip shapes + mutators + crash stages + write-error variants"
 	nrt := tierPick(r, 12, 300)
 	parallel(nrt, 16, func(i int) { c19RoundTrip(r, i) })
 	muts := len(c19Mutators)
@@ -547,5 +558,223 @@ func checkC19(r *verdict.Run) {
 	parallel(3, 3, func(i int) { c19DirtyGating(r, i, true) })
 	ncrash := tierPick(r, 3, 16)
 	parallel(ncrash, 8, func(i int) { c19Crash(r, i+int(r.Seed)%8, i%4 == 3) })
+	nwe := tierPick(r, 6, 30)
+	parallel(nwe, 6, func(i int) { c19WriteError(r, i+int(r.Seed)) })
 	r.Assume("fault model: process death (SIGKILL) at the hooked stages of a snapshot write; power loss (page cache, rename durability) is out of scope")
+}
+
+// ---- 5. write errors ------------------------------------------------------------------------------------
+
+// c19WriteError: a save is interrupted by an I/O error instead of the death of the process. The emulator runs under
+// strace, which makes write(2) on the snapshot's temporary file fail with ENOSPC (from the k-th write of each thread
+// on, or exactly once per thread). Oracle, from hook events and the files only: the emulator stays alive and serves its
+// in-memory state; a save attempt that did not reach save:done must leave the previous snapshot loadable and
+// unchanged; while the store is dirty and the last attempt failed, every later save pass must try again; the restart
+// loads the new state iff some attempt after the writes reached save:done, else exactly the previous one.
+func c19WriteError(r *verdict.Run, idx int) {
+	if _, err := exec.LookPath("strace"); err != nil {
+		r.Count("write_error_cases_skipped_no_strace", 1)
+		return
+	}
+	type variant struct {
+		name string
+		when string
+	}
+	variants := []variant{{"every-write", "1+"}, {"from-2nd", "2+"}, {"from-4th", "4+"}, {"once-1st", "1"}, {"once-3rd", "3"}, {"from-7th", "7+"}}
+	v := variants[idx%len(variants)]
+	nkeys := 2 + (idx/len(variants))%5
+	p := newC19Env(r)
+	if p == nil {
+		return
+	}
+	defer p.cleanup()
+	var s0cmds, s1cmds [][]string
+	for i := 0; i < nkeys; i++ {
+		k := fmt.Sprintf("k%d", i)
+		switch i % 4 {
+		case 0:
+			s0cmds = append(s0cmds, []string{"SET", k, "old" + strconv.Itoa(i)})
+			s1cmds = append(s1cmds, []string{"SET", k, "new" + strconv.Itoa(i)})
+		case 1:
+			s0cmds = append(s0cmds, []string{"RPUSH", k, "o1", "o2"})
+			s1cmds = append(s1cmds, []string{"RPUSH", k, "n3"})
+		case 2:
+			s0cmds = append(s0cmds, []string{"HSET", k, "f", "old"})
+			s1cmds = append(s1cmds, []string{"HSET", k, "f", "new", "g", "added"})
+		case 3:
+			s0cmds = append(s0cmds, []string{"SADD", k, "old"})
+			s1cmds = append(s1cmds, []string{"DEL", k})
+		}
+	}
+	key := fmt.Sprintf("%s/keys%d", v.name, nkeys)
+	rep := map[string]any{"state_before": quoteCmds(s0cmds), "writes": quoteCmds(s1cmds), "injection": "write(2) on " + filepath.Base(p.base) + ".db0.tmp fails with ENOSPC, when=" + v.when + " (per thread)"}
+	// phase A: the previous snapshot, written without faults
+	c, e, cn, err := p.start()
+	if err != nil {
+		r.Inconclusive("infra: " + err.Error())
+		return
+	}
+	for _, cmd := range s0cmds {
+		cn.Do(cmd...)
+	}
+	s0, err := fullDump(cn)
+	cn.Close()
+	if _, err2 := c.CloseEmu(e.name, 15*time.Second); err != nil || err2 != nil {
+		c.Stop()
+		r.Inconclusive("infra: phase A did not complete")
+		return
+	}
+	c.Stop()
+	prevFile, _ := os.ReadFile(p.base + ".db0")
+	// phase B: the same path under the injector
+	straceLog := filepath.Join(p.dir, "strace.log")
+	p.wrap = []string{"strace", "-f", "-qq", "-o", straceLog, "-e", "trace=write", "-e", "inject=write:error=ENOSPC:when=" + v.when, "-P", p.base + ".db0.tmp"}
+	c, e, cn, err = p.start()
+	p.wrap = nil
+	if err != nil {
+		r.Inconclusive("infra: cannot start the emulator under strace: " + err.Error())
+		return
+	}
+	defer func() { c.Stop() }()
+	c.Ctl("watch save")
+	for _, cmd := range s1cmds {
+		cn.Do(cmd...)
+	}
+	tWrites := c.EventCount()
+	s1, err := fullDump(cn)
+	if err != nil {
+		r.Report("persist/write-error/unresponsive", key+": the state cannot be read after the writes: "+err.Error(), rep)
+		return
+	}
+	// observe save passes: per pass, was an attempt made (save:created) and did it complete (save:done)?
+	// (a pass whose save fails ends without saveall:done, so passes are delimited by saveall:begin)
+	type pass struct{ attempted, done bool }
+	var passes []pass
+	succeeded := false
+	c.WaitEvent(tWrites, func() func(host.Event) bool {
+		begins := 0
+		return func(e host.Event) bool {
+			if e.Kind == "hit" && e.Point == "saveall:begin" {
+				begins++
+			}
+			return begins >= 6 || (e.Kind == "hit" && e.Point == "save:done")
+		}
+	}(), 9*time.Second)
+	time.Sleep(200 * time.Millisecond)
+	evs := c.EventsSince(tWrites)
+	for k, ev := range evs {
+		if ev.Kind != "hit" {
+			continue
+		}
+		switch ev.Point {
+		case "saveall:begin":
+			// the last pass counts only when it is known to be over
+			over := false
+			for _, later := range evs[k+1:] {
+				if later.Kind == "hit" && (later.Point == "saveall:begin" || later.Point == "saveall:done") {
+					over = true
+				}
+			}
+			if !over {
+				break
+			}
+			passes = append(passes, pass{})
+		case "save:created":
+			if len(passes) > 0 {
+				passes[len(passes)-1].attempted = true
+			}
+		case "save:done":
+			if len(passes) > 0 {
+				passes[len(passes)-1].done = true
+				succeeded = true
+			}
+		}
+	}
+	if len(passes) == 0 {
+		var evs []string
+		for _, ev := range c.EventsSince(tWrites) {
+			evs = append(evs, ev.Kind+":"+ev.Point)
+		}
+		r.Inconclusive(fmt.Sprintf("no periodic save pass observed under strace (%s; alive=%v; events=%v; stderr=%s)", key, c.Alive(), evs, headLines(c.StderrHead(600), 6)))
+		return
+	}
+	if !c.Alive() {
+		r.Report("persist/write-error/process-died", fmt.Sprintf("%s: the emulator process ended after a failed snapshot write:\n%s", key, headLines(c.StderrHead(3000), 20)), rep)
+		return
+	}
+	// the emulator must keep serving its in-memory state
+	mem, err := fullDump(cn)
+	if err != nil || fmt.Sprint(mem) != fmt.Sprint(s1) {
+		r.Report("persist/write-error/memory-state-changed", fmt.Sprintf("%s: after failed snapshot writes the served state differs from the acknowledged one (%v)", key, err), rep)
+		return
+	}
+	// retry: a pass after a failed attempt (nothing succeeded since, store still dirty) must attempt again
+	for i := 1; i < len(passes); i++ {
+		if !passes[i].attempted && !succeeded {
+			r.Report("persist/write-error/failed-save-not-retried", fmt.Sprintf("%s: save pass %d made no attempt although the previous attempt had failed and the changes are unsaved (passes: %+v)", key, i+1, passes), rep)
+			return
+		}
+	}
+	if !passes[0].attempted {
+		r.Report("persist/write-error/dirty-store-not-saved", fmt.Sprintf("%s: the first save pass after the writes made no attempt (passes: %+v)", key, passes), rep)
+		return
+	}
+	if !succeeded {
+		// every attempt failed: the previous snapshot must be untouched on disk, right now
+		if now, _ := os.ReadFile(p.base + ".db0"); !bytes.Equal(now, prevFile) {
+			r.Report("persist/write-error/previous-snapshot-damaged", fmt.Sprintf("%s: no save attempt completed, yet the snapshot file changed (%d -> %d bytes; files: %s)", key, len(prevFile), len(now), p.files()), rep)
+			return
+		}
+	}
+	cn.Close()
+	doneBefore := 0
+	for _, ev := range c.EventsSince(tWrites) {
+		if ev.Kind == "hit" && ev.Point == "save:done" {
+			doneBefore++
+		}
+	}
+	c.CloseEmu(e.name, 15*time.Second) // the final save runs under the injector too
+	doneAfter := 0
+	for _, ev := range c.EventsSince(tWrites) {
+		if ev.Kind == "hit" && ev.Point == "save:done" {
+			doneAfter++
+		}
+	}
+	files := p.files()
+	c.Stop()
+	injected := 0
+	if b, err := os.ReadFile(straceLog); err == nil {
+		injected = strings.Count(string(b), "(INJECTED)")
+	}
+	r.Count("injected_write_errors", int64(injected))
+	if injected == 0 {
+		r.Inconclusive("strace injected no write error (" + key + ")")
+		return
+	}
+	// phase C: restart without faults
+	c2, _, cn2, err := p.start()
+	r.Eval(1)
+	if err != nil {
+		r.Report("persist/write-error/restart-failed/"+errClass(err), fmt.Sprintf("%s: after failed snapshot writes the emulator cannot load its files (%s): %v", key, files, err), rep)
+		return
+	}
+	defer c2.Stop()
+	after, err := fullDump(cn2)
+	if err != nil {
+		return
+	}
+	want, which := s0, "previous"
+	if doneAfter > 0 {
+		want, which = s1, "new"
+	}
+	if fmt.Sprint(after) != fmt.Sprint(want) {
+		other := "neither the previous nor the new state"
+		if fmt.Sprint(after) == fmt.Sprint(s0) {
+			other = "the previous state"
+		} else if fmt.Sprint(after) == fmt.Sprint(s1) {
+			other = "the new state"
+		}
+		r.Report("persist/write-error/wrong-snapshot-loaded", fmt.Sprintf("%s: %d save attempts completed after the writes (%d before Close), so the restart must load the %s state, but it loaded %s (files: %s; %d injected errors)\n loaded: %v", key, doneAfter, doneBefore, which, other, files, injected, after[0]), rep)
+	}
+	r.Distinct(fmt.Sprintf("write-error/%s/restart-loads-%s", key, which))
 }
